@@ -84,12 +84,7 @@ def _flip(fam, r, prop):
                 return False
             o["calls"][0]["sum_same"] = False
         elif prop in ("C04", "C05"):
-            tc = [c for c in o["calls"] if c["kind"] == "type"]
-            if len(tc) < 2:
-                return False
-            i = o["calls"].index(tc[0])
-            j = o["calls"].index(tc[1])
-            o["calls"][i], o["calls"][j] = o["calls"][j], o["calls"][i]
+            return False        # needs the whole history: see _flip_c04
         elif prop == "C08":
             if not r["case"]["step"]["all"] or not o["post"]["sum_lines"]:
                 return False
@@ -144,8 +139,41 @@ def _flip(fam, r, prop):
     return True
 
 
+def _flip_c04(recs):
+    """C04 / C05 are judged against the memo of earlier runs of the same history: swap two GenerateType calls of a package in the
+    LAST run of a history in which an earlier successful run processed the same package with the same inputs and generators."""
+    by = {}
+    for r in recs:
+        by.setdefault(r["case"]["hist"], []).append(r)
+    for h in sorted(by):
+        runs = [r for r in by[h] if r["case"]["step"]["op"] == "run" and not r["obs"].get("failed") and not r["obs"].get("died")]
+        if len(runs) < 2 or runs[-1] is not by[h][-1] or by[h][-1]["case"]["beh"]:
+            continue
+        last = runs[-1]
+        for p in ("p", "q", "r"):
+            tc = [c for c in last["obs"]["calls"] if c["kind"] == "type" and c["pkg"] == p]
+            if len(tc) < 2:
+                continue
+            for e in runs[:-1]:
+                if (e["case"]["step"]["gens"] == last["case"]["step"]["gens"] and e["obs"]["pre"]["pkgs"][p]["in"] == last["obs"]["pre"]["pkgs"][p]["in"]
+                        and len([c for c in e["obs"]["calls"] if c["kind"] == "type" and c["pkg"] == p]) == len(tc)):
+                    calls = last["obs"]["calls"]
+                    i, j = calls.index(tc[0]), calls.index(tc[1])
+                    calls[i], calls[j] = calls[j], calls[i]
+                    return last
+    return None
+
+
 def _corrupt_one(ctx, fam, trace_path):
     recs = vlib.read_ndjson(trace_path)
+    if fam == "pipeline" and ctx.prop in ("C04", "C05"):
+        r = _flip_c04(recs)
+        if r is None:
+            raise Infra("selftest: no history of family pipeline could be corrupted")
+        vlib.write_ndjson(trace_path, recs)
+        ctx.corrupted = getattr(ctx, "corrupted", []) + [(fam, r["id"])]
+        log("[selftest] %s: swapped two calls in the last run of a history, trace line id=%s" % (fam, r["id"]))
+        return
     start = (ctx.seed * 7919) % max(1, len(recs))
     for k in range(len(recs)):
         r = recs[(start + k) % len(recs)]
